@@ -201,6 +201,36 @@ func ListOfAny(vs []val.Value) val.Value {
 			l = append(l, uint64(v.(val.UInt64)))
 		}
 		return val.UInt64List(l)
+	case val.Int8:
+		var l []int8
+		for _, v := range vs {
+			l = append(l, int8(v.(val.Int8)))
+		}
+		return val.Int8List(l)
+	case val.Int64:
+		var l []int64
+		for _, v := range vs {
+			l = append(l, int64(v.(val.Int64)))
+		}
+		return val.Int64List(l)
+	case val.UInt8:
+		var l []uint8
+		for _, v := range vs {
+			l = append(l, uint8(v.(val.UInt8)))
+		}
+		return val.UInt8List(l)
+	case val.Bits:
+		var l []val.Bits
+		for _, v := range vs {
+			l = append(l, v.(val.Bits))
+		}
+		return val.BitsList(l)
+	case val.IdentRef:
+		var l []val.IdentRef
+		for _, v := range vs {
+			l = append(l, v.(val.IdentRef))
+		}
+		return val.IdentRefList(l)
 	}
 	return nil
 }
